@@ -91,7 +91,8 @@ fn t_blte(data: &[u8]) -> Outcome {
     if FIXPOINT.load(Ordering::Relaxed) {
         return casc::<BlteFile>("blte", data);
     }
-    let f = match <BlteFile as CascFormat>::parse(data) {
+    // parsing is not decompression: the strict allocation limit applies to it
+    let f = match vh_engine::iso::with_strict_alloc(data.len(), || <BlteFile as CascFormat>::parse(data)) {
         Ok(f) => f,
         Err(e) => return err_outcome(e),
     };
@@ -182,6 +183,7 @@ fn t_tvfs(data: &[u8]) -> Outcome {
     casc::<cascette_formats::tvfs::TvfsFile>("tvfs", data)
 }
 fn t_tvfs_blte(data: &[u8]) -> Outcome {
+    let _ = vh_engine::iso::with_strict_alloc(data.len(), || <cascette_formats::blte::BlteFile as CascFormat>::parse(data).map(|_| ()));
     match cascette_formats::tvfs::TvfsFile::load_from_blte(data) {
         Ok(_) => Outcome::ok(),
         Err(e) => err_outcome(e),
